@@ -209,6 +209,7 @@ class PlainUnit(PrettyIPython, SharedRegistryObject):
         return not (self == other)
 
     def compare(self, other, op) -> bool:
+        self._check(other)
         self_q = self._REGISTRY.Quantity(1, self)
 
         if isinstance(other, NUMERIC_TYPES):
